@@ -379,4 +379,20 @@ theorem aexit_Clean (cfg : Cfg) (exc : Bool) : Clean cfg (aexit cfg exc) := by
     · exact Clean.tryFinally (commitLoop_Clean cfg _) (close_Clean cfg) w
     · exact Clean.tryFinally (txRollback_Clean cfg _) (close_Clean cfg) w
 
+/-- where the block leaves the world: the body's world, then `__aexit__` with `exc_tb` set iff the body raised -/
+theorem runBlock_world (cfg : Cfg) (body : List BodyCmd) (w : FWorld) (h : w.ctx = none) :
+    (runBlock cfg body w).2 =
+      (aexit cfg (!(runBody cfg body (entered w)).1.isOk) (runBody cfg body (entered w)).2).2 := by
+  unfold runBlock
+  simp only [h]
+  generalize runBody cfg body (entered w) = p
+  obtain ⟨r, w2⟩ := p
+  cases r with
+  | ok a => rfl
+  | err e =>
+    simp only [Res.isOk, Bool.not_false]
+    generalize aexit cfg true w2 = q
+    obtain ⟨r', w3⟩ := q
+    cases r' <;> rfl
+
 end CashewsVerif.TxFault
